@@ -316,7 +316,7 @@ class OperatorTest(object):
                 opx = self.operator(x)
                 scaled_opx = self.operator(scale * x)
 
-                denom = self.operator_norm * scale * x.norm()
+                denom = self.operator_norm * abs(scale) * x.norm()
                 error = (0 if denom == 0
                          else (scaled_opx - opx * scale).norm() / denom)
 
